@@ -22,6 +22,7 @@ func init() {
 		c03ConstructionWiring(c, "C02.6b") // the transport's packet event reaches onPacket
 		c02Jsonp(c)
 		codecCallTable(c, "C02.4c")
+		c02DeliveryUnconditional(c)
 		c10BoundedBody(c, "C02.9")                                                     // the whole body below the limit reaches OnData: the read limit is MaxHttpBufferSize() itself, not a smaller or unrelated quantity
 		c03AdmittedStates(c, "C02.1b", map[string]bool{"onPacket/emit(packet)": true}) // delivered whenever (and only when) open
 		// WebTransport frames: the kind and the bytes of an inbound message come from the framing layer
@@ -512,4 +513,41 @@ func codecCallTable(c *core.Ctx, R string) {
 		}
 	}
 	c.Need(R, "parser encode/decode call sites", n, 7)
+}
+
+// c02DeliveryUnconditional — C02.4d: every frame that was read is delivered.
+func c02DeliveryUnconditional(c *core.Ctx) {
+	const R = "C02.4d"
+	c.Rule(R, "every frame read is delivered: in websocket.message / webTransport.message the onMessage call of a data frame depends only on the frame type (the switch on mt) and on error tests (the NextReader / ReadFrom results being nil) — not on the number of bytes read or any other property of the payload: a zero-length frame is a message (the empty binary message of revision 4)")
+	n := 0
+	for _, k := range []string{"transports.(*websocket).message", "transports.(*webTransport).message"} {
+		u := c.Fn(R, k)
+		if u == nil {
+			continue
+		}
+		info := u.Info()
+		g := u.Graph()
+		for _, cl := range u.Calls() {
+			if cl.Name != "onMessage" {
+				continue
+			}
+			n++
+			bad := ""
+			for _, f := range g.Facts() {
+				if !g.EdgeDominates(f.Br.B, f.Edge, cl.Loc) {
+					continue
+				}
+				if f.Br.IsCase {
+					continue // the frame-type switch
+				}
+				cmp, ok := u.BranchCmp(f.Br)
+				if ok && cmp.Y != nil && core.IsNil(info, cmp.Y) && anyErr(u, cmp.X) {
+					continue
+				}
+				bad = core.ExprString(f.Br.Cond)
+			}
+			c.Check(R, keyf("%s/onMessage-depends-only-on-type-and-errors", k), cl.Pos(), bad == "", keyf("delivery also depends on: %s", bad))
+		}
+	}
+	c.Need(R, "onMessage call sites in the reader loops", n, 4)
 }
